@@ -30,6 +30,7 @@ CONSTANTS Keys,        \* e.g. {1, 2}
           WithR, WithW, WithA, WithG,
           WKey,        \* key of the autocommit writer and reader
           OldVersions, \* committed versions per key before the actors start (>= 1)
+          ContentGuard,\* TRUE: readers hold model.ContentGuard shared from the version lookup to the open, the cleaner exclusively per content
           HorizonLock, \* TRUE: Begin (draw + register) and the collector (oldest, else fresh draw) exclude each other (sequence.Horizon)
           RangeDraw    \* TRUE: a commit draws its publishing numbers in one step (sequence.NextN); FALSE: one draw per key (as found)
 
@@ -154,6 +155,11 @@ RNext(v) ==
 HeldByR == HorizonLock /\ WithR /\ pc["R"] \in {"seq.next", "reg.store"}
 HeldByG == HorizonLock /\ WithG /\ pc["G"] \in {"reg.oldest", "g.draw"}
 
+(* model.ContentGuard, derived from the gates the actors are parked at while they hold it *)
+ReadersHold == ContentGuard /\ ((WithA /\ pc["A"] \in {"lookup1", "lookup2", "get.afterLookup", "get.afterCf"})
+                                \/ (WithR /\ pc["R"] \in {"core.get.lookup", "get.afterLookup", "get.afterCf"}))
+CleanerHolds == ContentGuard /\ WithG /\ pc["G"] \in {"clean.beforeRemove", "clean.beforeCfDelete", "clean.beforeFDelete"}
+
 RStep ==
   \/ /\ pc["R"] = "start" /\ Go("R", "begin.enter") /\ UNCHANGED <<seq, main, crec, files, reg, regOrder, lock, loc, res, cmlog>>
   \/ /\ pc["R"] = "begin.enter" /\ ~HeldByG /\ Go("R", "seq.next") /\ UNCHANGED <<seq, main, crec, files, reg, regOrder, lock, loc, res, cmlog>>
@@ -164,7 +170,7 @@ RStep ==
      /\ reg' = Fn(DOMAIN reg \cup {RTx}, LAMBDA u : IF u = RTx THEN loc["R"].bseq ELSE reg[u]) /\ regOrder' = Append(regOrder, RTx)
      /\ SetLoc("R", "rk", 1)
      /\ UNCHANGED <<seq, main, crec, files, lock, res, cmlog>>
-  \/ /\ pc["R"] = "reg.get" /\ Go("R", "core.get.lookup") /\ UNCHANGED <<seq, main, crec, files, reg, regOrder, lock, loc, res, cmlog>>
+  \/ /\ pc["R"] = "reg.get" /\ ~CleanerHolds /\ Go("R", "core.get.lookup") /\ UNCHANGED <<seq, main, crec, files, reg, regOrder, lock, loc, res, cmlog>>
   \/ \* the version lookup under the main read lock
      /\ pc["R"] = "core.get.lookup" /\ lock = ""
      /\ LET v == LastBeforeVal(main[RKey], loc["R"].bseq)
@@ -196,7 +202,7 @@ WStep ==
 AStep ==
   \/ /\ pc["A"] = "start" /\ Go("A", "reg.get") /\ SetLoc("A", "seen", {LatestVal(WKey)})
      /\ UNCHANGED <<seq, main, crec, files, reg, regOrder, lock, res, cmlog>>
-  \/ /\ pc["A"] = "reg.get" /\ Go("A", "lookup1") /\ UNCHANGED <<seq, main, crec, files, reg, regOrder, lock, loc, res, cmlog>>
+  \/ /\ pc["A"] = "reg.get" /\ ~CleanerHolds /\ Go("A", "lookup1") /\ UNCHANGED <<seq, main, crec, files, reg, regOrder, lock, loc, res, cmlog>>
   \/ \* own store = main store, then the main store again: the newer of two lookups
      /\ pc["A"] = "lookup1" /\ lock = "" /\ Go("A", "lookup2") /\ SetLoc("A", "ver", LatestVal(WKey))
      /\ UNCHANGED <<seq, main, crec, files, reg, regOrder, lock, res, cmlog>>
@@ -233,7 +239,7 @@ GStep ==
            /\ SetLoc("G", "dead", dead)
            /\ Go("G", IF dead = <<>> THEN "done" ELSE "clean.file")
      /\ UNCHANGED <<seq, crec, files, reg, regOrder, lock, res, cmlog>>
-  \/ /\ pc["G"] = "clean.file" /\ Go("G", "clean.beforeRemove") /\ UNCHANGED <<seq, main, crec, files, reg, regOrder, lock, loc, res, cmlog>>
+  \/ /\ pc["G"] = "clean.file" /\ ~ReadersHold /\ Go("G", "clean.beforeRemove") /\ UNCHANGED <<seq, main, crec, files, reg, regOrder, lock, loc, res, cmlog>>
   \/ /\ pc["G"] = "clean.beforeRemove" /\ files' = files \ {Head(loc["G"].dead)} /\ Go("G", "clean.beforeCfDelete")
      /\ UNCHANGED <<seq, main, crec, reg, regOrder, lock, loc, res, cmlog>>
   \/ /\ pc["G"] = "clean.beforeCfDelete" /\ crec' = crec \ {Head(loc["G"].dead)} /\ Go("G", "clean.beforeFDelete")
